@@ -244,7 +244,7 @@ pub fn run(ctx: &Ctx, rep: &mut Report) {
                                 alive = false;
                                 continue;
                             }
-                            let addr = w.predicted_token_address(&id);
+                            let addr = w.token_addr(&id);
                             w.model.tokens.insert(id, TokenRec { id, addr, mode: TokMode::Native, name: b"Remote".to_vec(), symbol: b"RMT".to_vec(), decimals: 6, its_can_mint: true, minter: None });
                             remote.push(id);
                             (deployer.clone(), salt, true, format!("{}+{}", sname, mclass))
